@@ -335,7 +335,22 @@ class Model:
         self.stats['classes'] = len(self.classes)
         self.stats['functions'] = sum(len(m.all_funcs) for m in self.modules.values())
         self.stream = self.cls('streamz.core', 'Stream')
-        self.nodes = [c for c in self.classes if c.isa(self.stream)]
+        # Private helper bases / mix-ins of the package (`class _QueuedStream(Stream)`, `class _UniqueKeyMixin`) are code
+        # shared by their subclasses, not nodes of their own: their methods are analysed as methods of every concrete
+        # subclass (where the hooks they call resolve), and the bases themselves are not iterated as node classes.
+        self.private_bases = set()
+        for c in self.classes:
+            if not c.module.name.startswith('streamz') or '.tests' in c.module.name:
+                continue
+            for b in (c.mro or [])[1:]:
+                if b.name.startswith('_') and not b.name.startswith('__') and b.module.name.startswith('streamz') \
+                        and not b.registrations:
+                    self.private_bases.add(b)
+                    for name, fn in b.methods.items():
+                        if name not in c.methods and c.find(name) is fn:
+                            c.methods[name] = fn
+                            c.inherited_private = getattr(c, 'inherited_private', set()) | {name}
+        self.nodes = [c for c in self.classes if c.isa(self.stream) and c not in self.private_bases]
         self.stats['node_classes'] = len(self.nodes)
 
     def _c3(self, c, stack):
